@@ -478,7 +478,7 @@ pub fn conclude(ctx: &Ctx, mut rep: Report, replay: Option<&std::path::Path>) ->
     );
     let mut keys: Vec<_> = rep.counters.iter().filter(|(k, _)| !k.starts_with("violations_raw/")).collect();
     keys.sort();
-    for (k, v) in keys.iter().take(60) {
+    for (k, v) in keys.iter().take(400) {
         println!("  observed {:<60} {}", k, v);
     }
     exit
